@@ -399,8 +399,14 @@ def run_C09(ctx, E):
     # I->S at the level of the ACTIONS of LigationConc: free runs of clone.CircularLigate on random small pools, each of
     # which must be a behaviour of the specification (TLC infers the goroutine of every event)
     nbad = len(ctx.bad)
-    stage_record_trace(ctx, E, "actions", "LigationConc_Trace", "LigationConc_Trace.cfg", prop="C09A", heap="8g",
-                       merge=True, optional=True)
+    try:
+        stage_record_trace(ctx, E, "actions", "LigationConc_Trace", "LigationConc_Trace.cfg", prop="C09A", heap="8g",
+                           merge=True, optional=True, timeout=600)
+    except E.Machinery as ex:
+        # this stage is advisory (see below): if the inference does not finish it is reported, it does not take the
+        # verdict of the other stages with it
+        print("NOTE: the action-level conformance stage did not complete: %s" % str(ex).splitlines()[0][:200])
+        ctx.stage_info.append({"stage": "I->S actions (conformance)", "skipped": "did not complete: " + str(ex).splitlines()[0][:200]})
     # Verdict policy: the property speaks about results and termination, not about how the goroutines are organised.
     # A run that is not a behaviour of LigationConc although its result is right (say, candidates tried in another
     # order) is reported as a NOTE - the design-level model checking then no longer speaks for this code - and only a
